@@ -12,7 +12,7 @@ ID = "C18"
 LEVEL = "exploration"
 RULE = (
     "case = generated calibrator with a saving folder driven through a generated sequence of {calibrate(n), "
-    "set_samplers(new line-up), set_scheduler(new round-robin scheduler)} where the new line-ups add classes, drop classes that "
+    "set_samplers(new line-up), set_scheduler(new round-robin scheduler), a batch that fails in the model} where the new line-ups add classes, drop classes that "
     "already produced rows, repeat classes and include user-defined sampler classes. Monitors: samplers_id_table after every "
     "operation (only grows, entries never change, ids unique); for every row the inverse table maps method_samp to the class "
     "that produced it (class-level wrapper on sample()); after every calibrate() - i.e. for the checkpoint the calibrator "
@@ -23,7 +23,7 @@ RULE = (
     "distinct by operation sequence."
 )
 ASSUMPTIONS = ["sampler classes are identified by their class name, as the library does"]
-REQUIRED_COUNTERS = {"rl_scheduler_cases": 5, "moved_checkpoints": 10, "folder_reused_by_other_run": 20, "tables_checked": 80, "rows_attributed": 150, "helper_calls": 40, "restores": 40, "dropped_class_checkpoints": 10,
+REQUIRED_COUNTERS = {"failed_batches_then_continued": 10, "rl_scheduler_cases": 5, "moved_checkpoints": 10, "folder_reused_by_other_run": 20, "tables_checked": 80, "rows_attributed": 150, "helper_calls": 40, "restores": 40, "dropped_class_checkpoints": 10,
                      "user_defined_classes": 5, "set_scheduler_ops": 5, "old_format_fixture": 1}
 SHARDS = {"quick": 16, "thorough": 16}
 SHARD_WATCHDOG = {"quick": 1500, "thorough": 10800}
@@ -117,7 +117,28 @@ def run_case(desc, ctx):
 
     nops = int(rng.integers(3, 7))
     for k in range(nops):
-        op = "calibrate" if (k == 0 or rl) else str(rng.choice(["calibrate", "calibrate", "set_samplers", "set_scheduler"]))
+        op = "calibrate" if (k == 0 or rl) else str(rng.choice(["calibrate", "calibrate", "set_samplers", "set_scheduler", "failed_batch"]))
+        if rl and k > 0 and rng.random() < 0.2:
+            op = "failed_batch"
+        if op == "failed_batch":
+            # a batch fails after its sampler was designated (the model raises) and the user simply goes on: labels and samples stay in step
+            from vlib import models as MM
+
+            ops.append(["a batch fails in the model, then the run goes on"])
+            good = cal.model
+            cal.model = MM.FailAtCall(cfg["D"], 0)
+            try:
+                with quiet():
+                    cal.calibrate(1)
+            except MM.InjectedFault:
+                cnt("failed_batches_then_continued")
+            except Exception as e:  # noqa: BLE001
+                out["violations"].append({"msg": f"a failing batch raised {type(e).__name__} instead of the model's exception: {str(e)[:120]}", "witness": wit})
+            finally:
+                cal.model = good
+            if len(cal.method_samp) != len(cal.params_samp):
+                out["violations"].append({"msg": f"after a failed batch there are {len(cal.method_samp)} sampler labels for {len(cal.params_samp)} samples", "witness": wit})
+            continue
         if op == "calibrate":
             n = int(rng.integers(1, 4))
             ops.append(["calibrate", n])
